@@ -36,7 +36,7 @@ type SpecWalk struct {
 //@ func SpecIsExt
 //@   pure
 //@ func SpecIPv6Walk
-//@   recursive
+//@   recursive 2
 //@ func SpecIPv6Find
 //@   pure
 
